@@ -198,11 +198,16 @@ def run_case(case):
         stmts.append(("dev", "SOUND", {"f": X.num(1), "d": X.num(2)}))
     if case.get("second") and not case["form"].startswith("FN:"):
         stmts.append(("dev", "SOUND", {"f": operand("var", 0), "d": operand("tmp", 1)}))
+    if case.get("late"):
+        # the statement directly before the device statement changes the variables its operands read: whatever the tool
+        # computes ahead of the statement must be computed after this
+        stmts.insert(0, ("let", ("var", "C"), ("bin", "+", ("var", "C"), X.num(4)), False))
+        stmts.insert(0, ("let", ("var", "A"), ("bin", "+", ("var", "A"), X.num(1)), False))
     prog = [(10, SETUP), (20, stmts)]
     if case.get("in_if"):
         prog = [(10, SETUP), (20, [("if", ("bin", "=", ("var", "A"), X.num(3)), ("stmts", stmts), [], None)])]
     text = render(prog)
-    obs["key"] = "%s|%s|%s|%s|%s" % (kind_name, present, sorted((k, str(v)) for k, v in extra.items()), kinds, case.get("in_if"))
+    obs["key"] = "%s|%s|%s|%s|%s" % (kind_name, present, sorted((k, str(v)) for k, v in extra.items()), kinds, str(case.get("in_if")) + ("+late" if case.get("late") else ""))
     obs["sets"]["forms"] = ["%s%s" % (kind_name, list(present))]
     cb = harness.run_cb(prog)
     conv = harness.convert(text, initialize_vars=case.get("init", False))
@@ -326,4 +331,4 @@ def cases(tier, seed):
                 for ks in kind_sets:
                     n += 1
                     yield {"form": key, "pat": p, "extra": x, "kinds": ks, "init": n % 2 == 0, "in_if": n % 5 == 0,
-                           "second": n % 7 == 0, "sample": n % 200 == 0}
+                           "second": n % 7 == 0, "sample": n % 200 == 0, "late": n % 3 == 0}
